@@ -20,8 +20,8 @@ HARNESSES = [
 ASSUMPTIONS = ['tier S: one call of one real state-machine function from an arbitrary 64-bit state word (restricted only by the caller contract: what the calling owner holds) and arbitrary width in [1,4094]; at most 2 interfering replacements of the word by other threads',
                'kevent-workloop role (BASE_WLH) excluded: not compiled on this platform',
                'target-queue push, +2 reference retain/release and QoS-override slow path are counting stubs']
-LEVEL_TEXT = 'placeholder'
-LEVEL_NOTE = 'placeholder'
+LEVEL_TEXT = 'Bounded symbolic model checking of the real queue code. Tier S: each state-machine function of the hand-off protocol (_dispatch_queue_drain_try_unlock, _dispatch_queue_wakeup, _dispatch_queue_invoke_finish, _dispatch_lane_class_barrier_complete, the uncontended sync completion) is run once from ALL 2^64 state words permitted by its caller contract, all widths, with up to two arbitrary interfering updates by other threads; the solver decides the no-lost-wakeup / no-double-drive lemmas for every value. Tier H: every operation sequence up to length 3 (thorough: 4) over {async, barrier_async, sync, barrier_sync, async_and_wait, group_async, worker} on serial and concurrent queues and a chained target runs through the full real call tree with pool workers executed inline; exactly-once, no stranded item, sync returns, async does not wait are asserted at every step and at quiescence.'
+LEVEL_NOTE = 'Interleavings are represented by interference on the state word (tier S) and by sequential histories with inline workers (tier H); genuinely concurrent schedules of whole API calls are out of reach of this tool chain (DESIGN 2.4). Weak CAS never fails spuriously in tier H. Thread-pool growth (_dispatch_root_queue_poke, workq monitor) is NOT covered. Root-queue push, allocation, futex and client callout are stubs.'
 
 # ---------------------------------------------------------------- tier H: bounded histories (case split over operation sequences)
 from hist_spec import HH
